@@ -1,6 +1,8 @@
 /-
 C03 — model of `hydrodiy.stat.metrics.crps`: the kernel `c_crps` (src/hydrodiy/stat/c_crps.c, called with
-`use_weights = 0`, `is_sorted = 0`) and the Python wrapper's filtering (`__check_ensemble_data`).
+`use_weights = 0`, `is_sorted = 0`) and the Python wrapper's filtering and shape handling
+(`__check_ensemble_data`); of the extension-level entry `c_hydrodiy_stat.crps` (both flags, weight vector,
+caller-owned output arrays: `kernelGen`, `stepOp`, `runOps`); and the executable definition `definitionCrps`.
 No Mathlib. Generic over the numeric type: `Float` (driver), `Rat` (driver, exact), ordered field (theorems).
 
 Conventions
@@ -25,8 +27,14 @@ inductive Err
   | edom
   /-- wrapper: `obs` still has more than one dimension after `squeeze` (`ValueError("obs is not 1D")`) -/
   | obsNot1D
-  /-- `ens` with more than two dimensions: outside the modelled domain (documented input is `[n,p]`) -/
+  /-- `ens` with more than two dimensions: never answered (the code raises a `ValueError` or an `IndexError`,
+      depending on the shapes; the harness checks "rejected", not which) -/
   | ensNot2D
+  /-- extension level: one of the `assert`s of `c_hydrodiy_stat.crps` fails (`AssertionError`) -/
+  | assertion
+  /-- extension level: `use_weights == 1` with fewer weights than forecasts — the C code reads past the end of
+      `weights_vector` (the Cython wrapper does not check its length): outside the modelled domain -/
+  | weightsLen
   deriving DecidableEq, Repr
 
 /-- per-bin state after the forecast loop (c_crps.c:91-165) -/
@@ -245,6 +253,106 @@ def wrapperNd (sort : List α → List α) (oshape : List Nat) (obs : List (Opti
     match ensDims eshape with
     | .error e => .error e
     | .ok (n, m) => wrapper sort m obs (reshape m n ens)
+
+
+
+/-! ### the extension-level entry point `c_hydrodiy_stat.crps(use_weights, is_sorted, obs, sim, weight_vector,
+reliability_table, crps_decompos)` (c_hydrodiy_stat.pyx:109-132 → c_crps.c:43-234): both flags, the caller's
+weight vector and the caller's output arrays, which `c_crps` *adds to* (`crps_decompos[0] += …`,
+`crps_decompos[1] += …`) — `metrics.crps` is the call with `0, 0`, and freshly zeroed arrays -/
+
+/-- c_crps.c:155-164 with `weight_k = weights_vector[k]`: `prev` = `(obs[k], weight_k)` for `k < i`, in order -/
+def uncStepW (w y : α) (prev : List (α × α)) (u : α) : α :=
+  prev.foldl (fun u p => u + w * p.2 * absv (p.1 - y)) u
+
+/-- c_crps.c:109-164 for one forecast of weight `w` -/
+def stepW (w : α) (prev : List (α × α)) (y : α) (e : List α) (f l : α) (s : Acc α) : Acc α :=
+  { ab := binsStep w y e s.ab
+    b0 := if y < f then s.b0 + (f - y) * w else s.b0
+    aN := if l ≤ y then s.aN + (y - l) * w else s.aN
+    o0 := if y < f then s.o0 + w else s.o0
+    oN := if y < l then s.oN + w else s.oN
+    unc := uncStepW w y prev s.unc }
+
+/-- c_crps.c:91-165 with one weight per forecast; `srt` is `qsort` (`is_sorted == 0`) or nothing -/
+def loopW (srt : List α → List α) : List (α × α) → List ((α × α) × List α) → Acc α → Except Err (Acc α)
+  | _, [], s => .ok s
+  | prev, ((y, w), row) :: rest, s =>
+    let e := srt row
+    if unsortedAt e then .error .edom
+    else match e.head?, e.getLast? with
+      | some f, some l => loopW srt (prev ++ [(y, w)]) rest (stepW w prev y e f l s)
+      | _, _ => .error .shape
+
+/-- c_crps.c:167-222 on output arrays holding `out`: only `crps_decompos[0]` and `crps_decompos[1]` are read
+(added to); every other cell is overwritten -/
+def finishInto (m : Nat) (s : Acc α) (out : Result α) : Result α :=
+  let s := clampFreq s
+  let tb := table m s
+  let t := tb.foldl accRow ({ crps := out.crps, reli := out.reli, pot := some 0 } : Tot α)
+  { crps := t.crps, reli := t.reli, resol := t.pot.map fun p => s.unc - p, unc := s.unc, pot := t.pot,
+    table := tb }
+
+/-- `c_crps(nval, ncol, use_weights, is_sorted, obs, sim, weights_vector, reliability_table, crps_decompos)`;
+an error return (`EDOM`) happens inside the forecast loop, before anything is written to the output arrays -/
+def kernelGen (sort : List α → List α) (useW isSorted : Int) (m : Nat) (obs : List α) (ens : List (List α))
+    (weights : List α) (out : Result α) : Except Err (Result α) :=
+  if ens.length ≠ obs.length ∨ m = 0 ∨ ens.any (fun r => r.length != m) then .error .shape
+  else if useW = 1 ∧ weights.length < obs.length then .error .weightsLen
+  else
+    let ws := if useW = 1 then weights.take obs.length else List.replicate obs.length (1 / (obs.length : α))
+    let srt := if isSorted = 0 then sort else id
+    match loopW srt [] ((obs.zip ws).zip ens) (init m) with
+    | .error e => .error e
+    | .ok s => .ok (finishInto m s out)
+
+/-- an array filled with `v` (`np.full`; `np.zeros` for `v = 0`) in both outputs -/
+def filled (m : Nat) (v : α) : Result α :=
+  { crps := v, reli := some v, resol := some v, unc := v, pot := some v
+    table := List.replicate (m + 1) { p := v, a := v, b := v, g := v, o := some v, r := some v, c := some v } }
+
+/-- what a caller can do with one pair of output arrays of shapes `(m+1, 7)` and `(5,)` -/
+inductive Op (α : Type) where
+  /-- `reliability_table[...] = v; crps_decompos[...] = v` -/
+  | fill (v : α)
+  /-- `c_hydrodiy_stat.crps(use_weights, is_sorted, obs, sim, weights, table, decompos)` with `sim` of shape
+  `[sim.length, cols]` -/
+  | call (useW isSorted : Int) (obs : List α) (cols : Nat) (sim : List (List α)) (weights : List α)
+
+/-- one operation on the output arrays: the new content and what the caller sees (`none`: returned 0;
+`assertion`: `AssertionError` from the Cython wrapper's shape checks; `edom`: returned `EDOM`). Every failing
+operation leaves the arrays as they were. -/
+def stepOp (sort : List α → List α) (m : Nat) (out : Result α) : Op α → Result α × Option Err
+  | .fill v => (filled m v, none)
+  | .call useW isSorted obs cols sim weights =>
+    -- c_hydrodiy_stat.pyx:119-122
+    if obs.length ≠ sim.length ∨ m ≠ cols then (out, some .assertion)
+    else match kernelGen sort useW isSorted cols obs sim weights out with
+      | .error e => (out, some e)
+      | .ok r => (r, none)
+
+/-- a history of operations on one pair of output arrays; returns the final content and every outcome -/
+def runOps (sort : List α → List α) (m : Nat) : Result α → List (Op α) → Result α × List (Option Err)
+  | out, [] => (out, [])
+  | out, op :: ops =>
+    let (out', e) := stepOp sort m out op
+    let (fin, es) := runOps sort m out' ops
+    (fin, e :: es)
+
+/-! ### the definition the property compares with, executable (exact over `Rat`) -/
+
+/-- `Σ_x |x - y|` -/
+def sumAbs (y : α) (row : List α) : α := row.foldr (fun x acc => absv (x - y) + acc) 0
+
+/-- `E|X-y| - ½ E|X-X'|` over the empirical distribution of the members as given (unsorted) -/
+def energyM (y : α) (row : List α) : α :=
+  sumAbs y row / (row.length : α)
+    - row.foldr (fun a acc => sumAbs a row + acc) 0 / ((1 + 1) * ((row.length : α) * (row.length : α)))
+
+/-- mean of `energyM` over the forecasts whose observation is present -/
+def definitionCrps (obs : List (Option α)) (ens : List (List α)) : α :=
+  let kept := (obs.zip ens).filterMap fun p => p.1.map fun y => (y, p.2)
+  kept.foldr (fun p acc => energyM p.1 p.2 + acc) 0 / (kept.length : α)
 
 end
 end HydroVerif.C03
